@@ -238,12 +238,47 @@ def check_scalar_ladder(ctx):
     cs = m.func("_array_types._check_scalar")
     ctx.saw(cs)
     kind, dtypes, dims = cs.params
-    loop = [x for x in cs.body if isinstance(x, ast.For) and norm(x.iter) == dims]
+    from ..absim import eval_bool
+
+    def variadic_table(test, dvar):
+        """truth of `test` for a dim that is the anonymous multi-axis sentinel / a named multi-axis dim / anything else"""
+        out = []
+        for k in ("anonvar", "namedvar", "other"):
+            def atom(e, k=k):
+                t = norm(e)
+                if t == f"{dvar} is _anonymous_variadic_dim":
+                    return k == "anonvar"
+                if t == f"{dvar} is not _anonymous_variadic_dim":
+                    return k != "anonvar"
+                if t in (f"isinstance({dvar}, _NamedVariadicDim)", f"type({dvar}) is _NamedVariadicDim"):
+                    return k == "namedvar"
+                raise AnalysisError(f"C15.3: unrecognised atom `{t}` in _check_scalar")
+            out.append(eval_bool(test, atom))
+        return out
+
     okd = False
+    loop = [x for x in cs.body if isinstance(x, ast.For) and norm(x.iter) == dims and isinstance(x.target, ast.Name)]
     if len(loop) == 1:
         t = [x for x in loop[0].body if isinstance(x, ast.If)]
-        if len(t) == 1 and "_anonymous_variadic_dim" in norm(t[0].test) and "_NamedVariadicDim" in norm(t[0].test) and any(isinstance(x, ast.Return) and isinstance(x.value, ast.Constant) and x.value.value is False for x in t[0].body):
-            okd = True
+        if len(t) == 1 and any(isinstance(x, ast.Return) and isinstance(x.value, ast.Constant) and x.value.value is False for x in t[0].body):
+            # rejects when the dim is NOT a multi-axis specifier
+            okd = variadic_table(t[0].test, loop[0].target.id) == [False, False, True]
+    else:
+        # `if not all(<dim is variadic> for dim in dims): return False` / `... any(<dim is not variadic> ...)`
+        for st in cs.body:
+            if isinstance(st, ast.If) and any(isinstance(x, ast.Return) and isinstance(x.value, ast.Constant) and x.value.value is False for x in st.body):
+                tt = st.test
+                neg = False
+                while isinstance(tt, ast.UnaryOp) and isinstance(tt.op, ast.Not):
+                    neg = not neg
+                    tt = tt.operand
+                if isinstance(tt, ast.Call) and norm(tt.func) in ("all", "any") and tt.args and isinstance(tt.args[0], ast.GeneratorExp) and len(tt.args[0].generators) == 1 \
+                        and norm(tt.args[0].generators[0].iter) == dims and isinstance(tt.args[0].generators[0].target, ast.Name):
+                    tab = variadic_table(tt.args[0].elt, tt.args[0].generators[0].target.id)
+                    if norm(tt.func) == "all" and neg and tab == [True, True, False]:
+                        okd = True
+                    if norm(tt.func) == "any" and not neg and tab == [False, False, True]:
+                        okd = True
     if okd:
         ctx.ok("C15.3", cs.qualname, "scalars survive only when every dim is a multi-axis specifier (the shape admits rank 0)")
     else:
